@@ -7,6 +7,7 @@ use crate::findings::*;
 use crate::mach::*;
 use crate::pipe::*;
 use crate::refexec::*;
+use rayon::prelude::*;
 use serde_json::{json, Value};
 use std::collections::BTreeSet;
 use std::sync::atomic::{AtomicU64, Ordering};
@@ -34,6 +35,7 @@ pub struct Counters {
     pub blocked: Mutex<BTreeSet<String>>,
     pub outcomes: Mutex<BTreeSet<String>>,
     pub samples: Mutex<Vec<Value>>,
+    pub flagbits: Mutex<Vec<u64>>,
 }
 
 impl Counters {
@@ -48,6 +50,16 @@ impl Counters {
     }
     pub fn block(&self, shape: String) {
         self.blocked.lock().unwrap().insert(shape);
+    }
+    /// record a post-state flag word (distinct outcomes are counted over (state kind, flag word))
+    pub fn merge_flags(&self, local: &[u64]) {
+        let mut g = self.flagbits.lock().unwrap();
+        if g.is_empty() {
+            g.resize(1024, 0);
+        }
+        for i in 0..1024 {
+            g[i] |= local[i];
+        }
     }
     pub fn outcome(&self, s: &str) {
         let mut o = self.outcomes.lock().unwrap();
@@ -122,7 +134,9 @@ pub fn finish_cov(c: &Counters, mut cov: Coverage) -> Coverage {
         cov.distinct_nontrivial = cov.states;
     }
     let o = c.outcomes.lock().unwrap();
-    cov.distinct_outcomes = o.len() as u64;
+    let fb: u64 = c.flagbits.lock().unwrap().iter().map(|w| w.count_ones() as u64).sum();
+    cov.distinct_outcomes = o.len() as u64 + fb;
+    cov.extra.insert("distinct_post_flag_words".into(), json!(fb));
     cov.samples = c.samples.lock().unwrap().clone();
     let b = c.blocked.lock().unwrap();
     cov.extra.insert("blocked_shapes".into(), json!(b.iter().take(60).cloned().collect::<Vec<_>>()));
@@ -147,5 +161,129 @@ pub fn exec_label(e: &Exec) -> String {
         Exec::Ok(s) => format!("{:?}", s),
         Exec::Err(_) => "Err".into(),
         Exec::Panic(_) => "PANIC".into(),
+    }
+}
+
+/// Per-worker context: a real VM, the real interpreter, local statistics.
+pub struct Worker {
+    pub bench: Bench,
+    pub m: Machine,
+    pub n: u64,
+    pub since_audit: u32,
+    pub flags: Vec<u64>,
+}
+
+thread_local! {
+    static WK: std::cell::RefCell<Worker> = std::cell::RefCell::new(Worker::new());
+}
+
+/// run `f` with this thread's worker (real VM + real Interpreter are built once per thread)
+pub fn with_worker<R>(f: impl FnOnce(&mut Worker) -> R) -> R {
+    WK.with(|w| f(&mut w.borrow_mut()))
+}
+
+impl Worker {
+    pub fn new() -> Worker {
+        Worker { bench: Bench::new(0), m: Machine::new(), n: 0, since_audit: 0, flags: vec![0; 1024] }
+    }
+    /// run one case, report mismatches
+    pub fn case(
+        &mut self,
+        rep: &Reporter,
+        c: &Counters,
+        p: &mut Prepared,
+        pre: &RefM,
+        site: &str,
+        extra: &[(&str, i64)],
+        weight: u64,
+        check_mem: bool,
+    ) -> Exec {
+        let obs = diff_step(&mut self.bench, &self.m, p, pre, check_mem);
+        self.n += 1;
+        let f = obs.regs.flag as usize;
+        self.flags[f >> 6] |= 1u64 << (f & 63);
+        if !obs.mismatches.is_empty() {
+            report_mismatches(rep, p, pre, &obs, site, extra, weight);
+        }
+        if !check_mem {
+            self.since_audit += 1;
+            if self.since_audit >= 4096 {
+                self.audit(rep, p, site);
+            }
+        }
+        match &obs.exec {
+            Exec::Ok(St::Next) => {}
+            e => c.outcome(&exec_label(e)),
+        }
+        obs.exec
+    }
+    pub fn audit(&mut self, rep: &Reporter, p: &Prepared, site: &str) {
+        self.since_audit = 0;
+        if let Some((addr, g)) = self.bench.audit() {
+            rep.report(Viol {
+                site: site.to_string(),
+                field: "mem".into(),
+                vars: vec![],
+                got_val: Some(g as i64),
+                expected: "memory untouched by a register-only instruction".into(),
+                got: format!("[0x{:05X}]=0x{:02X} (found by the batch audit)", addr, g),
+                case: json!({"src": p.src, "line": p.line}),
+                weight: 0,
+            });
+        }
+    }
+    /// flush local statistics
+    pub fn flush(&mut self, c: &Counters) {
+        c.add_exec(self.n);
+        c.states.fetch_add(self.n, Ordering::Relaxed);
+        self.n = 0;
+        c.merge_flags(&self.flags);
+        c.outcome("Next");
+    }
+}
+
+pub fn flag_words(cin: u32) -> Vec<u16> {
+    crate::lattice::F4.iter().map(|f| (f & !CF) | cin as u16).collect()
+}
+
+/// Value sweep of one register-only instruction: all (a, b) x carry-in x 4 prior flag words.
+/// Memory is audited per batch (the instruction has no memory operand).
+pub fn sweep_values(rep: &Reporter, c: &Counters, i: &Instr, avals: &[u32], bvals: &[u32], site: &str) {
+    let chunks: Vec<&[u32]> = avals.chunks(16.max(avals.len() / 256)).collect();
+    let w = i.operands().get(0).and_then(|o| o.width()).map(|w| w.bits()).unwrap_or(0) as i64;
+    chunks.par_iter().for_each(|chunk| with_worker(|wk| {
+        let mut p = match prepare(i) {
+            Ok(p) => p,
+            Err(e) => {
+                c.block(format!("{} ({:?})", i.shape(), e));
+                return;
+            }
+        };
+        for a in chunk.iter() {
+            for b in bvals.iter() {
+                for cin in 0..2u32 {
+                    for f in flag_words(cin) {
+                        let pre = make_state(i, *a, *b, f, 0, &p.dc, 0);
+                        wk.case(
+                            rep,
+                            c,
+                            &mut p,
+                            &pre,
+                            site,
+                            &[("a", *a as i64), ("b", *b as i64), ("cin", cin as i64), ("w", w)],
+                            (*a + *b) as u64,
+                            false,
+                        );
+                    }
+                }
+            }
+        }
+        wk.audit(rep, &p, site);
+        wk.flush(c);
+    }));
+    c.shapes.fetch_add(1, Ordering::Relaxed);
+    if let Ok(p) = prepare(i) {
+        let pre = make_state(i, avals[avals.len() / 2], bvals[bvals.len() / 2], 0xF001, 0, &p.dc, 0);
+        c.sample(json!({"instr": render_instr(i), "emitted": p.line, "a_values": avals.len(), "b_values": bvals.len(), "flag_words": 8, "one_pre_state": pre.r.json()}));
     }
 }
